@@ -37,6 +37,8 @@ CLAUSE = {
     33: "shared object table: first shared object number / location", 34: "shared object table: an object of the shared section is not shared among later pages only",
     35: "a page needs an object that is neither in its own run, nor in the shared object table, nor before the first page (document-level part)",
     112: "an object the first page needs is a member of an object stream that lies at or after /E",
+    212: "an object the first page needs is also reached from /Outlines and lies at or after /E (with the outlines)",
+    235: "a page needs an object that is also reached from a document-level key and is neither in the page's run, nor in the shared object table, nor before the first page",
     135: "a page needs a member of an object stream that is neither in the page's run, nor in the shared object table, nor before the first page",
     36: "page offset table: identifier count", 41: "outline table: first object", 42: "outline table: location", 43: "outline table: length / objects not consecutive",
     44: "outline table: object set differs from what /Outlines reaches", 45: "hint tables overlap",
@@ -124,6 +126,13 @@ def lin_doc(rng, npages, feat):
             if i + 1 < len(items):
                 d.objects[it.n][b"Next"] = items[i + 1]
         d.objects[ol.n] = D(Type=N("Outlines"), First=items[0], Last=items[-1], Count=len(items))
+        if "shared-action" in feat:
+            act = d.add(D(S=N("GoTo"), D=[page_refs[-1], N("Fit")]))
+            del d.objects[items[0].n][b"Dest"]
+            d.objects[items[0].n][b"A"] = act
+            la = d.add(D(Type=N("Annot"), Subtype=N("Link"), Rect=[0, 0, 20, 20], A=act))
+            tgt = page_refs[0] if rng.random() < 0.5 else page_refs[-1]
+            d.objects[tgt.n][b"Annots"] = list(d.objects[tgt.n].get(b"Annots", [])) + [la]
         c[b"Outlines"] = ol
         if "use-outlines" in feat:
             c[b"PageMode"] = N("UseOutlines")
@@ -163,7 +172,8 @@ def lin_doc(rng, npages, feat):
 
 
 FEATURES = ["shared", "private", "thumbs", "all-thumbs", "outlines", "use-outlines", "pagemode-other", "acroform", "threads", "viewerprefs",
-            "openaction", "names", "metadata", "info", "two-level", "no-inherit", "inherit-res", "indirect-res", "multi-content", "annots"]
+            "openaction", "names", "metadata", "info", "two-level", "no-inherit", "inherit-res", "indirect-res", "multi-content", "annots",
+            "page-and-other", "shared-action"]
 
 
 def gen_inputs(rng, n, wd):
@@ -172,7 +182,7 @@ def gen_inputs(rng, n, wd):
         npages = rng.choice([1, 1, 2, 2, 3, 4, 5, 7, 9, 13, 17, 24, 40]) if i >= 4 else [1, 2, 3, 40][i]
         k = rng.choice([0, 1, 2, 3, 5, 8])
         feat = set(rng.sample(FEATURES, k))
-        if "use-outlines" in feat or "pagemode-other" in feat:
+        if "use-outlines" in feat or "pagemode-other" in feat or "shared-action" in feat:
             if rng.random() < 0.8:
                 feat.add("outlines")
         d = lin_doc(rng, npages, feat)
@@ -516,6 +526,21 @@ def part_files(chk, runner):
         r2 = common.run_qpdf(pw + ["--show-linearization", out]) if jobs[i][1][0] == "none" else None
         return r1, r2
     qres = common.par_map(qcheck, done, workers=4)
+    # classification model (Lin/Parts.v) on the unencrypted outputs whose tables decode
+    pj = [k for k, ((i, rc, out, args), rep) in enumerate(zip(done, reps)) if jobs[i][1][0] == "none" and rep.get("page_table") is not None]
+    pouts = common.run_lines(runner, ["linparts " + done[k][2] for k in pj], shards=4)
+    tie_parts = []
+    n_parts_objs = 0
+    for k, o in zip(pj, pouts):
+        i, rc, out, args = done[k]
+        f = o.split(" ")
+        if o == "none" or not f[0].isdigit():
+            tie_parts.append({"input": jobs[i][0]["path"], "argv": ["qpdf"] + args, "result": o[:200]})
+            continue
+        n_parts_objs += int(f[0])
+        if len(f) > 1 and f[1]:
+            tie_parts.append({"input": jobs[i][0]["path"], "features": jobs[i][0]["features"], "argv": ["qpdf"] + args,
+                              "objects_(number:model_part:observed_part)": f[1][:300]})
     nontriv = set()
     kinds, clauses_seen = {}, {}
     tie_hint, tie_arith, tie_show, tie_p1 = [], [], [], []
@@ -567,7 +592,8 @@ def part_files(chk, runner):
         if dd:
             inp, cfg = jobs[i]
             tie_p1.append({"input": inp["path"], "config": cfg_name(cfg), "differences": dd[:3]})
-    for name, lst in (("hint-encoder", tie_hint), ("lindict-arithmetic", tie_arith), ("show-linearization", tie_show), ("pass-agreement", tie_p1)):
+    for name, lst in (("hint-encoder", tie_hint), ("lindict-arithmetic", tie_arith), ("show-linearization", tie_show), ("pass-agreement", tie_p1),
+                      ("parts-classification", tie_parts)):
         if lst:
             chk.violation({"kind": "correspondence-broken", "correspondence": "corr:C07:" + name, "differing_cases": len(lst), "first_cases": lst[:2],
                            "note": "the Annex F checker accepts the outputs, but the model / qpdf's own reading no longer agrees with the real bytes"}, no_input=True)
@@ -579,6 +605,7 @@ def part_files(chk, runner):
     pp["hint_tables_decoded_and_re-encoded_by_model"] = n_tables
     pp["encrypted_outputs_(dictionary/offset_clauses_only)"] = n_enc
     pp["pass1_files_compared"] = len(p1jobs)
+    pp["objects_classified_by_the_parts_model"] = n_parts_objs
     pp["clauses_failed"] = {str(k): v for k, v in clauses_seen.items()}
     pp["pages_distribution"] = sorted(set(inp["npages"] for inp in inputs if inp["npages"]))
 
